@@ -64,7 +64,8 @@ ESCAPES = ['\\0', '\\a', '\\b', '\\t', '\\n', '\\v', '\\f', '\\r', '\\e', '\\ ',
            '\\uD83D\\uDE00', '\\ud83d\\ude00', '\\uD800', '\\uDBFF\\uDFFF', '\\uDC00x']
 TAGS = ['!!str', '!!int', '!!float', '!!map', '!!seq', '!!set', '!!omap', '!!binary', '!local', '!<tag:example.com,2000:x>',
         '!', '!!null', '!!bool', '!a%20b', '!!timestamp', '!!pairs', '!<tag:yaml.org,2002:s%74r>', '!l%C3%A9on',
-        '!<tag:example.com,2000:%E2%82%AC%2Fx>', '!!s%74r']
+        '!<tag:example.com,2000:%E2%82%AC%2Fx>', '!!s%74r', '!<http://example.com/point>', '!<https://Example.COM:8080/a%20b?q=1#frag>',
+        '!<urn:uuid:6e8bc430-9c3a-11d9-9669-0800200c9a66>']
 
 
 class DocGen:
@@ -262,7 +263,7 @@ class DocGen:
             lines.append('%YAML 1.' + r.choice('1112'))
             explicit = True
         if r.random() < 0.15:
-            lines.append(r.choice(['%TAG !e! tag:example.com,2000:app/', '%TAG !e! tag:ex%61mple.com,2000:app%2F']))
+            lines.append(r.choice(['%TAG !e! tag:example.com,2000:app/', '%TAG !e! tag:ex%61mple.com,2000:app%2F', '%TAG !e! http://example.com/schema/']))
             self.handle = True
             explicit = True
         if explicit:
